@@ -3,7 +3,7 @@
 #![allow(dead_code, unused_imports, clippy::all)]
 use super::*;
 use crate::input::str::StrInput;
-use crate::scanner::verif_harness::{tk, Inject, MAXTOK};
+use crate::scanner::verif_harness::{tk, Inject, MAXTOK, MASK_ALL, MASK_NO_TAGS};
 
 #[path = "/verif/kani/common/sym.rs"]
 pub mod sym;
@@ -273,7 +273,7 @@ fn sym_tokens(n: usize, with_tags: bool) -> Inject {
     if sym::playback() {
         eprintln!("VERIF-INPUT tokens={:?} payload={:?}", &kinds[..len], &payload[..len]);
     }
-    Inject { kinds, payload, len, pos: 0 }
+    Inject { kinds, payload, len, pos: 0, mask: if with_tags { MASK_ALL } else { MASK_NO_TAGS } }
 }
 
 pub const NAMES: [&str; 3] = ["a", "b", "c"];
@@ -372,8 +372,6 @@ macro_rules! step_harness {
     };
 }
 step_harness!(c02_step_stream_start, State::StreamStart, 0, 2, false);
-step_harness!(c02_step_implicit_document_start, State::ImplicitDocumentStart, 0, 2, false);
-step_harness!(c02_step_document_start, State::DocumentStart, 0, 2, false);
 step_harness!(c02_step_document_content, State::DocumentContent, 0, 3, false);
 step_harness!(c02_step_document_end, State::DocumentEnd, 0, 2, false);
 step_harness!(c02_step_block_node_d0, State::BlockNode, 0, 3, false);
@@ -410,3 +408,483 @@ step_harness!(c02_step_flow_mapping_empty_value_d0, State::FlowMappingEmptyValue
 step_harness!(c02_step_flow_mapping_empty_value_d2, State::FlowMappingEmptyValue, 2, 1, false);
 step_harness!(c02_step_block_node_tags_d0, State::BlockNode, 0, 3, true);
 step_harness!(c02_step_block_node_tags_d2, State::BlockNode, 2, 3, true);
+
+// ------------------------------------------------------------------------------------------------
+// Document-boundary scenarios (C02, C06, C15, C16): the token KINDS are a concrete template (the
+// directive loops of document_start make a symbolic kind sequence explode), payloads (which handle,
+// which prefix), keep_tags and the tag table left by earlier documents are symbolic.
+// ------------------------------------------------------------------------------------------------
+use crate::scanner::verif_harness::DIRECTIVES;
+
+fn scenario_parser<'a>(kinds: &[u8], state: State) -> (Parser<'a, StrInput<'a>>, [u8; MAXTOK]) {
+    let mut k = [0u8; MAXTOK];
+    let mut payload = [0u8; MAXTOK];
+    let mut i = 0;
+    while i < kinds.len() {
+        k[i] = kinds[i];
+        let q: u8 = kani::any();
+        kani::assume(q < 4);
+        payload[i] = q;
+        i += 1;
+    }
+    let mut p = Parser::new(StrInput::new(""));
+    p.scanner.verif_inject = Some(Inject { kinds: k, payload, len: kinds.len(), pos: 0, mask: MASK_ALL });
+    p.scanner.verif_set_stream_flags(true, false);
+    p.state = state;
+    p.keep_tags = kani::any();
+    if sym::playback() {
+        eprintln!("VERIF-INPUT token_kinds={:?} payload={:?} keep_tags={} state={:?}", kinds, &payload[..kinds.len()], p.keep_tags, state);
+    }
+    (p, payload)
+}
+
+/// Tag table a correct parser holds after the directives `kinds/payload` of one document, given the
+/// table `before` (index = position in DIRECTIVES; value: 0 absent, 1 = old prefix, 2 = this
+/// document's prefix). Returns None if a handle is declared twice in the document.
+fn ref_tags(before: [u8; 4], kinds: &[u8], payload: &[u8; MAXTOK]) -> Option<[u8; 4]> {
+    let mut t = before;
+    let mut seen = [false; 4];
+    let mut i = 0;
+    while i < kinds.len() {
+        if kinds[i] == tk::TAG_DIRECTIVE {
+            let h = (payload[i] as usize) % 4;
+            if seen[h] {
+                return None;
+            }
+            seen[h] = true;
+            t[h] = 2;
+        }
+        i += 1;
+    }
+    Some(t)
+}
+
+fn doc_start_scenario(kinds: &[u8], implicit: bool) {
+    let (mut p, payload) = scenario_parser(kinds, if implicit { State::ImplicitDocumentStart } else { State::DocumentStart });
+    // table left by earlier documents: only possible with keep_tags (document_end clears otherwise)
+    let mut before = [0u8; 4];
+    if p.keep_tags {
+        p.tags.insert(String::from(DIRECTIVES[0].0), String::from("old:"));
+        before[0] = 1;
+    }
+    let abs0 = abs_of(p.state, &p.states);
+    let r = p.parse();
+    // expected outcome from the YAML rules
+    let mut n_version = 0;
+    let mut n_dir = 0;
+    let mut i = 0;
+    while i < kinds.len() && (kinds[i] == tk::DOCUMENT_END) {
+        i += 1;
+    }
+    let first = i;
+    while i < kinds.len() && (kinds[i] == tk::VERSION_DIRECTIVE || kinds[i] == tk::TAG_DIRECTIVE) {
+        if kinds[i] == tk::VERSION_DIRECTIVE {
+            n_version += 1;
+        }
+        n_dir += 1;
+        i += 1;
+    }
+    let after_dirs = if i < kinds.len() { kinds[i] } else { 255 };
+    let want_tags = ref_tags(before, kinds, &payload);
+    let explicit_required = !implicit && after_dirs != tk::STREAM_END;
+    let must_fail = n_version > 1
+        || want_tags.is_none()
+        || ((n_dir > 0 || explicit_required) && after_dirs != tk::DOCUMENT_START)
+        || after_dirs == 255;
+    match &r {
+        Ok((ev, _)) => {
+            assert!(!must_fail, "C06: repeated %YAML, repeated %TAG handle or directives without '---' accepted");
+            let want = monitor_step(&abs0, ev);
+            assert!(want.phase != Phase::Bad, "C02: event not allowed by the event grammar at a document boundary");
+            let after = abs_of(p.state, &p.states);
+            assert!(after.same(&want), "C02: parser configuration disagrees with the grammar position after the event");
+            if first < kinds.len() && kinds[first] == tk::STREAM_END {
+                assert!(matches!(ev, Event::StreamEnd), "C02: stream end not reported");
+            } else {
+                assert!(matches!(ev, Event::DocumentStart(_)), "C02: document start not reported");
+                // C16: ALL %TAG directives of the document are in force together
+                let t = want_tags.unwrap();
+                let mut h = 0;
+                while h < 4 {
+                    let got = p.tags.get(DIRECTIVES[h].0);
+                    match t[h] {
+                        0 => assert!(got.is_none(), "C16: a handle is in force that no directive of this document declared"),
+                        1 => assert!(got.is_some_and(|v| v == "old:"), "C16: keep_tags lost a handle of an earlier document"),
+                        _ => assert!(got.is_some_and(|v| v == DIRECTIVES[h].1), "C16: a %TAG directive of the document is not in force"),
+                    }
+                    h += 1;
+                }
+            }
+            kani::cover!(true, "accepted");
+        }
+        Err(_) => {
+            assert!(must_fail, "C16: a well-formed directive prologue is rejected");
+            kani::cover!(true, "rejected");
+        }
+    }
+    kani::cover!(true, "must: outcome compared with the reference");
+    std::mem::forget(r);
+    std::mem::forget(p);
+}
+
+macro_rules! doc_start_harness {
+    ($name:ident, $implicit:expr, $($k:expr),+) => {
+        #[kani::proof]
+        #[kani::unwind(12)]
+        pub fn $name() {
+            doc_start_scenario(&[$($k),+], $implicit);
+        }
+    };
+}
+doc_start_harness!(c16_docstart_stream_end, true, tk::STREAM_END);
+doc_start_harness!(c16_docstart_skip_doc_ends, false, tk::DOCUMENT_END, tk::DOCUMENT_END, tk::STREAM_END);
+doc_start_harness!(c16_docstart_implicit_scalar, true, tk::SCALAR);
+doc_start_harness!(c16_docstart_explicit, true, tk::DOCUMENT_START, tk::SCALAR);
+doc_start_harness!(c16_docstart_explicit_required_missing, false, tk::SCALAR);
+doc_start_harness!(c16_docstart_version, true, tk::VERSION_DIRECTIVE, tk::DOCUMENT_START);
+doc_start_harness!(c16_docstart_two_versions, true, tk::VERSION_DIRECTIVE, tk::VERSION_DIRECTIVE, tk::DOCUMENT_START);
+doc_start_harness!(c16_docstart_two_tags, true, tk::TAG_DIRECTIVE, tk::TAG_DIRECTIVE, tk::DOCUMENT_START);
+doc_start_harness!(c16_docstart_tag_then_version, false, tk::TAG_DIRECTIVE, tk::VERSION_DIRECTIVE, tk::DOCUMENT_START);
+doc_start_harness!(c16_docstart_three_tags, true, tk::TAG_DIRECTIVE, tk::TAG_DIRECTIVE, tk::TAG_DIRECTIVE, tk::DOCUMENT_START);
+doc_start_harness!(c16_docstart_tag_without_docstart, true, tk::TAG_DIRECTIVE, tk::SCALAR);
+doc_start_harness!(c16_docstart_directive_then_eof, true, tk::VERSION_DIRECTIVE);
+
+/// C15: the end of a document resets the per-document parser state: handles are dropped unless
+/// keep_tags; after an explicit '...' the next document may start implicitly, otherwise a directive
+/// is an error; the state stack is empty.
+fn doc_end_scenario(kinds: &[u8]) {
+    let (mut p, _payload) = scenario_parser(kinds, State::DocumentEnd);
+    p.tags.insert(String::from("!a!"), String::from("p1:"));
+    p.tags.insert(String::from("!!"), String::from("p3:"));
+    let abs0 = abs_of(p.state, &p.states);
+    let r = p.parse();
+    let explicit = kinds[0] == tk::DOCUMENT_END;
+    let next = if explicit { kinds[1] } else { kinds[0] };
+    let directive_next = next == tk::VERSION_DIRECTIVE || next == tk::TAG_DIRECTIVE;
+    match &r {
+        Ok((ev, _)) => {
+            assert!(matches!(ev, Event::DocumentEnd), "C02: document end not reported");
+            assert!(explicit || !directive_next, "C06: directive accepted without a document end marker before it");
+            let want = monitor_step(&abs0, ev);
+            let after = abs_of(p.state, &p.states);
+            assert!(after.same(&want), "C02: parser configuration disagrees with the grammar position after the event");
+            assert!(p.states.is_empty(), "C15: state stack not empty between documents");
+            if explicit {
+                assert!(p.state == State::ImplicitDocumentStart, "C15: after '...' the next document cannot start implicitly");
+            } else {
+                assert!(p.state == State::DocumentStart, "C15: without '...' the next document must start with '---'");
+            }
+            if p.keep_tags {
+                assert!(p.tags.get("!a!").is_some() && p.tags.get("!!").is_some(), "C16: keep_tags dropped the handles");
+            } else {
+                assert!(p.tags.get("!a!").is_none() && p.tags.get("!!").is_none() && p.tags.is_empty(), "C15: %TAG handles survive the end of their document");
+            }
+            kani::cover!(true, "accepted");
+        }
+        Err(_) => {
+            assert!(!explicit && directive_next, "C15: a well-formed document end is rejected");
+        }
+    }
+    kani::cover!(true, "must: outcome compared with the reference");
+    std::mem::forget(r);
+    std::mem::forget(p);
+}
+macro_rules! doc_end_harness {
+    ($name:ident, $($k:expr),+) => {
+        #[kani::proof]
+        #[kani::unwind(12)]
+        pub fn $name() {
+            doc_end_scenario(&[$($k),+]);
+        }
+    };
+}
+doc_end_harness!(c15_docend_explicit_then_doc, tk::DOCUMENT_END, tk::SCALAR);
+doc_end_harness!(c15_docend_explicit_then_directive, tk::DOCUMENT_END, tk::TAG_DIRECTIVE);
+doc_end_harness!(c15_docend_explicit_then_eof, tk::DOCUMENT_END, tk::STREAM_END);
+doc_end_harness!(c15_docend_implicit_then_docstart, tk::DOCUMENT_START, tk::SCALAR);
+doc_end_harness!(c15_docend_implicit_then_eof, tk::STREAM_END, tk::STREAM_END);
+
+/// C16: tag resolution through the handles in force. Token template: TAG then SCALAR (or ANCHOR, TAG,
+/// SCALAR); the TAG payload (7 spellings) and the tag table (each of 4 handles bound or not... bound
+/// to its pool prefix, chosen by a concrete harness parameter) are symbolic / parameters.
+fn resolve_scenario(table_mask: u8, with_anchor: bool) {
+    let kinds_a = [tk::ANCHOR, tk::TAG, tk::SCALAR];
+    let kinds_b = [tk::TAG, tk::SCALAR];
+    let kinds: &[u8] = if with_anchor { &kinds_a } else { &kinds_b };
+    let mut k = [0u8; MAXTOK];
+    let mut payload = [0u8; MAXTOK];
+    let mut i = 0;
+    while i < kinds.len() {
+        k[i] = kinds[i];
+        i += 1;
+    }
+    let tagsel: u8 = kani::any();
+    kani::assume(tagsel < 7);
+    let ti = if with_anchor { 1 } else { 0 };
+    payload[ti] = tagsel;
+    let mut p = Parser::new(StrInput::new(""));
+    p.scanner.verif_inject = Some(Inject { kinds: k, payload, len: kinds.len(), pos: 0, mask: MASK_ALL });
+    p.scanner.verif_set_stream_flags(true, false);
+    p.state = State::BlockNode;
+    p.states.push(State::DocumentEnd);
+    let mut h = 0;
+    while h < 4 {
+        if table_mask & (1 << h) != 0 {
+            p.tags.insert(String::from(DIRECTIVES[h].0), String::from(DIRECTIVES[h].1));
+        }
+        h += 1;
+    }
+    if sym::playback() {
+        eprintln!("VERIF-INPUT tag_choice={} table_mask={:#b} with_anchor={}", tagsel, table_mask, with_anchor);
+    }
+    let r = p.parse();
+    // scanner spellings: 0 ("!!","s")  1 ("!a!","s")  2 ("!b!","s")  3 ("!c!","s")  4 ("!","s")  5 ("","v") verbatim  6 ("","!") non-specific
+    let bound = |h: usize| table_mask & (1 << h) != 0;
+    // expected (prefix, suffix) or error
+    let (want_err, want_prefix, want_suffix): (bool, &str, &str) = match tagsel {
+        0 => (false, if bound(2) { "p3:" } else { "tag:yaml.org,2002:" }, "s"),
+        1 => (!bound(0), "p1:", "s"),
+        2 => (!bound(1), "p2:", "s"),
+        3 => (true, "", "s"),
+        4 => (false, if bound(3) { "p4:" } else { "!" }, "s"),
+        5 => (false, "", "v"),
+        _ => (false, "", "!"),
+    };
+    match &r {
+        Ok((Event::Scalar(_, _, _, Some(tag)), _)) => {
+            assert!(!want_err, "C16: a named tag handle that was never declared is accepted");
+            assert!(tag.handle == want_prefix, "C16: tag prefix is not the one bound to the handle");
+            assert!(tag.suffix == want_suffix, "C16: tag suffix changed");
+            kani::cover!(tagsel == 0, "must: secondary handle resolved");
+        }
+        Ok(_) => assert!(false, "C16: tagged scalar lost its tag"),
+        Err(_) => {
+            assert!(want_err, "C16: a declared or local tag is rejected");
+            kani::cover!(true, "undeclared handle rejected");
+        }
+    }
+    std::mem::forget(r);
+    std::mem::forget(p);
+}
+macro_rules! resolve_harness {
+    ($name:ident, $mask:expr, $anchor:expr) => {
+        #[kani::proof]
+        #[kani::unwind(24)]
+        pub fn $name() {
+            resolve_scenario($mask, $anchor);
+        }
+    };
+}
+resolve_harness!(c16_resolve_no_directives, 0b0000, false);
+resolve_harness!(c16_resolve_all_directives, 0b1111, false);
+resolve_harness!(c16_resolve_named_only, 0b0011, true);
+resolve_harness!(c16_resolve_secondary_and_primary, 0b1100, false);
+resolve_harness!(c16_resolve_only_b, 0b0010, false);
+
+// ------------------------------------------------------------------------------------------------
+// C17: peek / next agree with plain iteration; the stream is fused after StreamEnd.
+// ------------------------------------------------------------------------------------------------
+
+/// Plain data of a symbolic configuration, so that two identical parsers can be built from it.
+#[derive(Clone, Copy)]
+struct Cfg {
+    kinds: [u8; MAXTOK],
+    payload: [u8; MAXTOK],
+    len: usize,
+    e1: u8,
+    e2: u8,
+    cnt: usize,
+    id1: usize,
+    id2: usize,
+}
+fn sym_cfg(ntok: usize) -> Cfg {
+    let mut kinds = [0u8; MAXTOK];
+    let mut payload = [0u8; MAXTOK];
+    let mut i = 0;
+    while i < ntok {
+        let k: u8 = kani::any();
+        kani::assume(k < tk::COUNT && k != tk::TAG && k != tk::TAG_DIRECTIVE);
+        kinds[i] = k;
+        let q: u8 = kani::any();
+        kani::assume(q < 3);
+        payload[i] = q;
+        i += 1;
+    }
+    let len: usize = kani::any();
+    kani::assume(len <= ntok);
+    let e1: u8 = kani::any();
+    let e2: u8 = kani::any();
+    kani::assume(e1 < 10 && e2 < 10);
+    let cnt: usize = kani::any();
+    kani::assume(cnt >= 2 && cnt <= 1000);
+    let id1: usize = kani::any();
+    let id2: usize = kani::any();
+    kani::assume(id1 >= 1 && id1 < cnt && id2 >= 1 && id2 < cnt);
+    if sym::playback() {
+        eprintln!("VERIF-INPUT tokens={:?} payload={:?} stack_entries=({}, {}) anchor_id_count={} ids=({}, {})", &kinds[..len], &payload[..len], e1, e2, cnt, id1, id2);
+    }
+    Cfg { kinds, payload, len, e1, e2, cnt, id1, id2 }
+}
+fn build<'a>(c: &Cfg, state: State, depth: usize) -> Parser<'a, StrInput<'a>> {
+    let mut p = Parser::new(StrInput::new(""));
+    p.scanner.verif_inject = Some(Inject { kinds: c.kinds, payload: c.payload, len: c.len, pos: 0, mask: MASK_NO_TAGS });
+    p.scanner.verif_set_stream_flags(true, false);
+    p.state = state;
+    p.states.push(State::DocumentEnd);
+    if depth == 2 {
+        p.states.push(continuation_from(c.e1));
+        p.states.push(continuation_from(c.e2));
+    }
+    p.anchor_id_count = c.cnt;
+    p.anchors.insert(Cow::Borrowed(NAMES[0]), c.id1);
+    p.anchors.insert(Cow::Borrowed(NAMES[1]), c.id2);
+    p
+}
+fn same_result(a: &ParseResult, b: &ParseResult) -> bool {
+    match (a, b) {
+        (Ok((e1, s1)), Ok((e2, s2))) => e1 == e2 && s1 == s2,
+        (Err(x), Err(y)) => x.marker() == y.marker() && x.info().len() == y.info().len(),
+        _ => false,
+    }
+}
+fn same_config(a: &Parser<'_, StrInput<'_>>, b: &Parser<'_, StrInput<'_>>) -> bool {
+    a.state == b.state
+        && a.states.len() == b.states.len()
+        && a.states.last() == b.states.last()
+        && a.anchor_id_count == b.anchor_id_count
+        && a.stream_end_emitted == b.stream_end_emitted
+        && a.scanner.verif_inject.as_ref().unwrap().pos == b.scanner.verif_inject.as_ref().unwrap().pos
+}
+
+/// From the same arbitrary configuration: parser A does `next`; parser B does `peek`, `peek`, `next`.
+/// The peeks return what `next` returns and consume nothing; both parsers end in the same state.
+fn peek_next(state: State, depth: usize, ntok: usize) {
+    let c = sym_cfg(ntok);
+    let mut a = build(&c, state, depth);
+    let mut b = build(&c, state, depth);
+    let ra = a.next_event();
+    let pk1: Option<ParseResult> = match b.peek() {
+        None => None,
+        Some(Ok(x)) => Some(Ok(x.clone())),
+        Some(Err(e)) => Some(Err(e)),
+    };
+    let pos_after_peek = b.scanner.verif_inject.as_ref().unwrap().pos;
+    match (&ra, &pk1) {
+        (Some(x), Some(y)) => assert!(same_result(x, y), "C17: peek does not return what next returns"),
+        _ => assert!(false, "C17: next/peek returned nothing before the stream ended"),
+    }
+    if let Some(Ok(_)) = &pk1 {
+        // a second peek returns the same event and reads no further token
+        let pk2: Option<ParseResult> = match b.peek() {
+            None => None,
+            Some(Ok(x)) => Some(Ok(x.clone())),
+            Some(Err(e)) => Some(Err(e)),
+        };
+        assert!(matches!((&pk1, &pk2), (Some(x), Some(y)) if same_result(x, y)), "C17: two peeks in a row differ");
+        assert!(b.scanner.verif_inject.as_ref().unwrap().pos == pos_after_peek, "C17: peek consumed input");
+        let rb = b.next_event();
+        assert!(matches!((&ra, &rb), (Some(x), Some(y)) if same_result(x, y)), "C17: next after peek differs from plain next");
+        assert!(b.current.is_none(), "C17: next left the peeked event in place");
+        assert!(same_config(&a, &b), "C17: peeking changes the parser state reached");
+        kani::cover!(true, "must: peek then next compared");
+        std::mem::forget(rb);
+        std::mem::forget(pk2);
+    }
+    std::mem::forget((ra, pk1));
+    std::mem::forget((a, b));
+}
+macro_rules! peek_harness {
+    ($name:ident, $state:expr, $depth:expr, $ntok:expr) => {
+        #[kani::proof]
+        #[kani::unwind(10)]
+        pub fn $name() {
+            peek_next($state, $depth, $ntok);
+        }
+    };
+}
+peek_harness!(c17_peek_next_block_node, State::BlockNode, 2, 2);
+peek_harness!(c17_peek_next_flow_sequence_entry, State::FlowSequenceEntry, 2, 3);
+peek_harness!(c17_peek_next_block_mapping_value, State::BlockMappingValue, 0, 3);
+
+/// Fuse: from the state just before the end of the stream (token template [StreamEnd]) every history
+/// of four peek/next calls behaves like the reference: peek shows StreamEnd until a next has
+/// returned it; after that next and peek return nothing.
+#[kani::proof]
+#[kani::unwind(10)]
+pub fn c17_fuse_after_stream_end() {
+    let mut k = [0u8; MAXTOK];
+    k[0] = tk::STREAM_END;
+    let implicit: bool = kani::any();
+    let mut p = Parser::new(StrInput::new(""));
+    p.scanner.verif_inject = Some(Inject { kinds: k, payload: [0u8; MAXTOK], len: 1, pos: 0, mask: MASK_NO_TAGS });
+    p.scanner.verif_set_stream_flags(true, false);
+    p.state = if implicit { State::ImplicitDocumentStart } else { State::DocumentStart };
+    let mut ended = false;
+    let mut i = 0;
+    while i < 4 {
+        let is_peek: bool = kani::any();
+        if sym::playback() {
+            eprintln!("VERIF-INPUT call{}={}", i, if is_peek { "peek" } else { "next" });
+        }
+        if is_peek {
+            let r = p.peek();
+            if ended {
+                assert!(r.is_none(), "C17: peek returns something after StreamEnd was delivered");
+            } else {
+                assert!(matches!(r, Some(Ok((Event::StreamEnd, _)))), "C17: peek does not show the pending StreamEnd");
+            }
+        } else {
+            let r = p.next_event();
+            if ended {
+                assert!(r.is_none(), "C17: next returns something after StreamEnd was delivered");
+            } else {
+                assert!(matches!(r, Some(Ok((Event::StreamEnd, _)))), "C17: next does not deliver StreamEnd");
+                ended = true;
+            }
+            std::mem::forget(r);
+        }
+        i += 1;
+    }
+    kani::cover!(ended, "must: stream end delivered");
+    std::mem::forget(p);
+}
+
+/// C06: an alias whose anchor was never defined is an error; an alias to a defined anchor yields
+/// the id recorded for it.
+#[kani::proof]
+#[kani::unwind(10)]
+pub fn c06_alias_without_anchor() {
+    let mut k = [0u8; MAXTOK];
+    k[0] = tk::ALIAS;
+    let mut payload = [0u8; MAXTOK];
+    let which: u8 = kani::any();
+    kani::assume(which < 3);
+    payload[0] = which;
+    let mut p = Parser::new(StrInput::new(""));
+    p.scanner.verif_inject = Some(Inject { kinds: k, payload, len: 1, pos: 0, mask: MASK_ALL });
+    p.scanner.verif_set_stream_flags(true, false);
+    p.state = State::BlockNode;
+    p.states.push(State::DocumentEnd);
+    let id1: usize = kani::any();
+    let id2: usize = kani::any();
+    kani::assume(id1 >= 1 && id1 < 100 && id2 >= 1 && id2 < 100);
+    p.anchor_id_count = 100;
+    p.anchors.insert(Cow::Borrowed(NAMES[0]), id1);
+    p.anchors.insert(Cow::Borrowed(NAMES[1]), id2);
+    if sym::playback() {
+        eprintln!("VERIF-INPUT alias_name={} anchors: a={} b={}", NAMES[which as usize], id1, id2);
+    }
+    let r = p.parse();
+    match &r {
+        Ok((Event::Alias(id), _)) => {
+            assert!(which < 2, "C06: alias without a preceding anchor accepted");
+            assert!(*id == if which == 0 { id1 } else { id2 }, "C02: alias carries the id of another anchor");
+        }
+        Ok(_) => assert!(false, "C02: alias token did not produce an alias event"),
+        Err(_) => assert!(which == 2, "C06: alias to a defined anchor rejected"),
+    }
+    kani::cover!(r.is_err(), "must: unknown anchor rejected");
+    kani::cover!(r.is_ok(), "must: known anchor accepted");
+    std::mem::forget(r);
+    std::mem::forget(p);
+}
